@@ -279,6 +279,25 @@ pub fn c08(cx: &RunCtx) {
     eprintln!("[C08] trees {} compared {} viol {}", st.nodes, st.compared, cx.rec.total());
     cx.add_run(&st, desc);
 
+    real_vs_complex(cx);
+
+    // lexical part: imaginary literals, bare i, pi vs p+i
+    crate::checks::tok_run::<Cpx>(
+        cx,
+        "E-TOK Σ_full(complex) lexical",
+        crate::alpha::sigma_full(refmodel::vocab::Ev::Cpx),
+        if cx.tier == Tier::Quick { 3 } else { 4 },
+        3,
+        crate::checks::ONLY_DEFAULT,
+        &[Kind::Value, Kind::MalformedOk, Kind::WellFormedErr],
+        None,
+        2400,
+    );
+}
+
+/// real operands inside the real domain: eval_complex agrees with eval_f64 within 1e-9 relative,
+/// imaginary part below 1e-9 of the modulus
+pub fn real_vs_complex(cx: &RunCtx) {
     // real operands inside the real domain: agree with eval_f64 within 1e-9, imaginary part below 1e-9 of the modulus
     let mut st = Stats::default();
     let reals = real_values();
@@ -364,17 +383,4 @@ pub fn c08(cx: &RunCtx) {
     }
     st.samples.push(json!({"real_operand_input": inputs[7]}));
     cx.add_run(&st, json!({"engine": "E-REAL real operands: eval_complex vs eval_f64", "inputs": inputs.len(), "stats": st.to_json()}));
-
-    // lexical part: imaginary literals, bare i, pi vs p+i
-    crate::checks::tok_run::<Cpx>(
-        cx,
-        "E-TOK Σ_full(complex) lexical",
-        crate::alpha::sigma_full(refmodel::vocab::Ev::Cpx),
-        if cx.tier == Tier::Quick { 3 } else { 4 },
-        3,
-        crate::checks::ONLY_DEFAULT,
-        &[Kind::Value, Kind::MalformedOk, Kind::WellFormedErr],
-        None,
-        2400,
-    );
 }
